@@ -195,15 +195,21 @@ struct Chars {
         std::string st_text, os_text, str_text, cap_text;
         bool cap_ok = false;
         bool const with_variants = base == 10 && (len == capacity || (z % 7 == 3));  // the variants do not depend on the buffer length
+        bool os_ok = false;
         if (with_variants) {
-            Outcome o2;
-            bool ok2 = guard(o2, [&] {
-                auto r = cnl::to_chars_static(value);
-                st_text.assign(r.chars.data(), static_cast<std::size_t>(r.length));
+            // operator<< on its own: it need not go through to_chars (wide_integer streams through its storage type), so a
+            // failure of the other variants must not hide it
+            Outcome o3;
+            os_ok = guard(o3, [&] {
                 using cnl::operator<<;  // 128-bit built-ins are streamed by an overload in namespace cnl
                 std::ostringstream ss;
                 ss << value;
                 os_text = ss.str();
+            });
+            Outcome o2;
+            bool ok2 = guard(o2, [&] {
+                auto r = cnl::to_chars_static(value);
+                st_text.assign(r.chars.data(), static_cast<std::size_t>(r.length));
                 if constexpr (is_scaled<T>) str_text = cnl::to_string(value);
                 GuardedBuffer g2(capacity);
                 std::to_chars_result r2{};
@@ -214,8 +220,17 @@ struct Chars {
                 cap_ok = r2.ec == std::errc{};
                 if (cap_ok) cap_text.assign(g2.first, r2.ptr);
             });
+            if constexpr (Prop == 14 && !is_scaled<T>) {
+                // integers: the streamed text is the canonical numeral, whatever the other variants do
+                if (os_ok && !(is_native_int_v<Rep> && bits_v<std::conditional_t<is_native_int_v<Rep>, Rep, int>> == 8) && os_text != z.get_str())
+                    return o.fail("ostream-text-mismatch", "expected \"" + z.get_str() + "\" got \"" + os_text + "\"");
+            }
             if (!ok2) {
                 o.fail(cause + "fixed-capacity-variant/" + o2.fclass, o2.msg);
+                return;
+            }
+            if (!os_ok) {
+                o.fail(cause + "fixed-capacity-variant/ostream/" + o3.fclass, o3.msg);
                 return;
             }
             if (!cap_ok) return o.fail(cause + "fixed-capacity-variant/static-capacity-too-small", "to_chars fails with a buffer of to_chars_capacity = " + std::to_string(capacity));
@@ -376,6 +391,16 @@ struct CapSweep {
             st_len = int(s.length);
             st_text.assign(s.chars.data(), std::min<std::size_t>(s.chars.size(), static_cast<std::size_t>(std::max(st_len, 0))));
         });
+        std::string os_text;
+        Outcome o3;
+        bool os_ok = guard(o3, [&] {
+            std::ostringstream ss;
+            ss << value;
+            os_text = ss.str();
+        });
+        std::string const cause0 = (bottom < 0 && z == bottom && bottom == -top - 1) ? "most-negative/" : "";
+        if (!os_ok) return o.fail(cause0 + "capacity-sweep/ostream/" + o3.fclass, o3.msg);
+        if (Prop == 14 && os_text != expect) return o.fail(cause0 + "capacity-sweep/ostream-text-mismatch", "expected \"" + expect + "\" got \"" + os_text + "\"");
         // the most negative value of a two's complement type is a listed finding of its own (to_chars negates it)
         std::string const cause = (bottom < 0 && z == bottom && bottom == -top - 1) ? "most-negative/" : "";
         o.region = cause;
